@@ -422,6 +422,12 @@ theorem connected_session_isolation (p : Peer) (ops : List Op) (t : Table) :
     outsOf p t ops = (run (restrict p t) (ops.filter (fun op => decide (op.peer = p)))).2 :=
   outsOf_restrict p ops t
 
+/-- the same over the wire, where a request that cannot be parsed ends its session (`enip_srv_tcp` drops the
+connection and the session's end purges its connections): still only the session's **own** failures count -/
+theorem connected_session_isolation_wire (p : Peer) (ops : List Op) (t : Table) :
+    outsOfWire p t ops = (runWire (restrict p t) (ops.filter (fun op => decide (op.peer = p)))).2 :=
+  outsOfWire_restrict p ops t
+
 /-- one-step form: an operation of another peer changes no lookup of this peer's connections
 (peers differ when host **or** port differ) -/
 theorem other_peer_untouched (t : Table) (op : Op) (k : Key) (h : op.peer ≠ k.peer) :
